@@ -79,7 +79,7 @@ def run(tier, seed):
                         ofail.append(rec)
             sessions = [S.ops for S in allS if not S.live.dead]
             if st["proof"] or os.path.exists(vlib.model_exe()):
-                diverged, total = vlib.diff_sessions(exe, sessions)
+                diverged, total = P.retrying(lambda: vlib.diff_sessions(exe, sessions))
             healed = [S for S in H if getattr(S, "c09", {}).get("healed")]
             chk.cov["evaluations"] = sum(len(S.ops) for S in allS)
             chk.cov["traces_validated_against_impl"] = len(sessions) - len(diverged)
